@@ -10,6 +10,7 @@ import copy
 import enum as _enum
 import functools
 import math
+import dataclasses
 import zlib
 from array import array
 
@@ -131,6 +132,39 @@ BOOMS = [Boom] + [_boom_class(b) for b in (AttributeError, KeyError, TypeError, 
                                              AssertionError, OSError, LookupError, ArithmeticError, UnicodeError, NotImplementedError)]
 
 
+class _FrozenBoom(Boom):
+    """an immutable exception (what @dataclass(frozen=True) / attrs.frozen on an Exception subclass gives): attribute assignment
+    and deletion are refused once it is built - the interpreter itself sets __traceback__ / __context__ without going through
+    __setattr__, so raising and catching it works like for any other class"""
+
+    def __init__(self, item):
+        Exception.__init__(self, 'boom on %r' % (item,))
+        object.__setattr__(self, 'item', item)
+
+    def __setattr__(self, name, value):
+        raise dataclasses.FrozenInstanceError('cannot assign to field %r' % name)
+
+    def __delattr__(self, name):
+        raise dataclasses.FrozenInstanceError('cannot delete field %r' % name)
+
+    def __deepcopy__(self, memo):        # (the harness snapshots what consumers receive with deepcopy)
+        return self
+
+
+class _NoArgsBoom(Boom):
+    """an exception whose .args do not rebuild it (type(e)(*e.args) fails): it can only be passed on as the object it is"""
+
+    def __init__(self, item, *, strict=True):
+        Exception.__init__(self)
+        self.item = item
+
+    def __deepcopy__(self, memo):        # (the harness snapshots what consumers receive with deepcopy)
+        return self
+
+
+BOOMS += [_FrozenBoom, _NoArgsBoom]
+
+
 def boom_for(item_id, item):
     return BOOMS[item_id % len(BOOMS)](item)
 
@@ -238,6 +272,9 @@ _FUNCS = {
     'modne': lambda k, r: (lambda i: i % k != r),
     'true': lambda: (lambda i: True),
     'false': lambda: (lambda i: False),
+    # a yes / no answer whose "no" is a falsy value that is not the object False (dict.get('final') -> None, `m and m == 'END'` -> '')
+    'modeqnone': lambda k, r: (lambda i: True if i % k == r else None),
+    'modeqstr': lambda k, r: (lambda i: ('' if i % k != r else 'END') and True),
     'dgt': lambda k: (lambda x: digest(x) > k),
     # predicates returning a truthy / falsy non-bool (separate input class)
     'modtruthy': lambda k: (lambda i: i % k),
@@ -266,6 +303,8 @@ _FUNCS = {
     'acc_npvec': lambda: (lambda a, i: a + _np.array([i, 1], dtype='int64')),
     # an append on a list produced by a factory that is not a plain function (functools.partial / callable object / lru_cache)
     'acc_append_any': lambda: (lambda a, i: a + [digest(i)]),
+    # (first value seen, count): 'nothing seen yet' is recognised by the IDENTITY of the sentinel the factory put in the state
+    'acc_sentinel': lambda: (lambda a, i: (digest(i), 1) if a[0] is _MISSING else (a[0], a[1] + 1)),
     # terminators (must return the seed's type)
     'term_neg': lambda: (lambda a: -a),
     'term_addk': lambda k: (lambda a: a + k),
@@ -333,12 +372,29 @@ _SEEDS = {
     'list_partial': lambda: functools.partial(list, ()),
     'list_callable_object': lambda: _ListFactory(),
     'list_lru': lambda: _lru_list,
+    'sentinel_factory': lambda: _sentinel_state,
 }
 
 
 class _ListFactory:
     def __call__(self):
         return []
+
+
+class _Missing:
+    """a module-level sentinel (`_MISSING = object()` with a stable repr): a copy of it is NOT it"""
+
+    def __repr__(self):
+        return '<MISSING>'
+
+
+_MISSING = _Missing()
+
+
+def _sentinel_state():
+    # the documented contract of a seed FACTORY: its product is the initial state as it is.  A fresh state may hold references
+    # whose identity matters - here the usual 'nothing seen yet' sentinel, tested with `is` by a pure accumulator
+    return (_MISSING, 0)
 
 
 def _fresh_list():
@@ -495,7 +551,25 @@ _reg('distinct', 'iotfp', _same, lambda n, e: rs.ops.distinct(fn(n[1], e) if n[1
 _reg('lag', '*', 'x', lambda n, e: call(rs.data.lag, [('size', n[1])]), ['stateful', 'mux_only'])
 _reg('pad_start', '*', _same, lambda n, e: call(rs.data.pad_start, [('size', n[1]), ('value', n[2])]), ['stateful', 'mux_only'])
 _reg('pad_end', '*', _same, lambda n, e: call(rs.data.pad_end, [('size', n[1]), ('value', n[2])]), ['stateful', 'mux_only', 'completion'])
-_reg('start_with', '*', _same, lambda n, e: call(rs.ops.start_with, [('padding', list(n[1]))]), ['stateful', 'mux_only'])
+def padding_of(n):
+    """the padding of a start_with node as the container its third field names: the items to prepend are given as a list or - as in
+    the operator's own documentation - a tuple, or any other re-iterable (a range, a deque, the keys of a dict, a numpy array)"""
+    vals = list(n[1])
+    kind = n[2] if len(n) > 2 else 'list'
+    if kind == 'tuple':
+        return tuple(vals)
+    if kind == 'deque':
+        return _collections.deque(vals)
+    if kind == 'keys':
+        return dict.fromkeys(vals).keys()
+    if kind == 'range':
+        return range(vals[0], vals[0] + len(vals)) if vals else range(0)
+    if kind == 'nparray':
+        return _np.array(vals, dtype='int64')
+    return vals
+
+
+_reg('start_with', '*', _same, lambda n, e: call(rs.ops.start_with, [('padding', padding_of(n))]), ['stateful', 'mux_only'])
 # error handlers (C13)
 # an RxPY-native operator with inner observables (only placed by C08, in branches on plain observables): its inner
 # subscriptions are scheduler-driven, so on a cold trampolined source they emit after the source has completed
@@ -516,7 +590,7 @@ FUNC_SIG = {
 }
 SEED_TYPE = {'zero': 'i', 'zerof': 'f', 'list': 'x', 'list_factory': 'x', 'dict_factory': 'x', 'pair00': 't',
              'neg1': 'i', 'arr_factory': 'x', 'one': 'i', 'nested': 'x', 'box': 'x', 'tbox': 'x', 'npvec': 'x',
-             'list_partial': 'x', 'list_callable_object': 'x', 'list_lru': 'x', 'ndict': 'x', 'nlist': 'x', 'phase': 'x', 'ddict': 'x'}
+             'list_partial': 'x', 'list_callable_object': 'x', 'list_lru': 'x', 'sentinel_factory': 'x', 'ndict': 'x', 'nlist': 'x', 'phase': 'x', 'ddict': 'x'}
 
 
 def out_type(node, t):
@@ -538,7 +612,7 @@ def out_type(node, t):
 
 
 INT_FUNCS = {'kapprox', 'kobj', 'sub', 'tonp', 'knp', 'modnp', 'divnp', 'divnpf', 'npgt', 'kcent', 'divcent', 'divbool', 'divnone', 'divnan', 'divobj', 'divobjt', 'divtag', 'add', 'mul', 'mod', 'div', 'neg', 'pair', 'pairmod', 'rep', 'upto', 'opt', 'half', 'tofloat', 'nt', 'even', 'odd',
-             'modeq', 'modne', 'modtruthy', 'kt', 'ks', 'kbig', 'kf', 'kmix', 'kneg', 'kmers', 'ktneg', 'divt', 'divs', 'divbig', 'divhuge', 'divf', 'divpar'}
+             'modeq', 'modeqnone', 'modeqstr', 'modne', 'modtruthy', 'kt', 'ks', 'kbig', 'kf', 'kmix', 'kneg', 'kmers', 'ktneg', 'divt', 'divs', 'divbig', 'divhuge', 'divf', 'divpar'}
 NUM_FUNCS = {'gt', 'lt', 'trunc', 'scale10'}
 ANY_FUNCS = {'id', 'digest', 'dgt', 'true', 'false', 'kdig', 'digpar', 'ktype'}
 TYPED_FUNCS = {'frompy': 'p', 't0': 't', 't1': 't', 'tsum': 't', 'len': 'l', 'lsum': 'l', 'isnone': 'o', 'ntsum': 'n'}
@@ -728,6 +802,55 @@ def twin_subscriptions(make, items, out, what, digest_fn):
     return da
 
 
+def staggered_subscriptions(make, items, out, what, digest_fn):
+    """Three streams through the SAME operator object whose lifetimes are staggered: a long-lived stream A is open; a stream B
+    starts and ends while A is open; a stream C starts while A is still open; A ends; C ends.  (A module-level operator serving
+    a long-running pushed log while files are processed with it.)  Each stream has its own pushed source and owes the
+    events a stream processed alone gets.  digest_fn(list of items) -> value compared between the three and returned."""
+    from .common import Snap
+    srcs = [Controlled() for _ in range(3)]
+    snaps = [Snap() for _ in range(3)]
+    items = list(items)
+    h = len(items) // 2
+    t = len(items) // 3
+
+    def start(k):
+        make(srcs[k].observable).subscribe(on_next=snaps[k].on_next, on_error=snaps[k].on_error, on_completed=snaps[k].on_completed)
+    try:
+        start(0)
+        for x in items[:h]:
+            srcs[0].push(x)
+        start(1)
+        for x in items:
+            srcs[1].push(x)
+        srcs[1].complete()
+        start(2)
+        for x in items[:t]:
+            srcs[2].push(x)
+        for x in items[h:]:
+            srcs[0].push(x)
+        srcs[0].complete()
+        for x in items[t:]:
+            srcs[2].push(x)
+        srcs[2].complete()
+    except Exception as e:              # noqa: BLE001
+        for sn in snaps:
+            if sn.err is None and not sn.done:
+                sn.err = e
+    out.observed['triples_of_staggered_subscriptions'] += 1
+    digests = []
+    for sn in snaps:
+        try:
+            digests.append(digest_fn(sn.out) if sn.err is None else None)
+        except Exception as e:          # noqa: BLE001
+            digests.append('digest failed: %r' % (e,))
+    if any(sn.err is not None or not sn.done for sn in snaps) or digests[0] != digests[1] or digests[0] != digests[2]:
+        out.fail('staggered-subscriptions-through-one-operator-object-differ', what=what,
+                 streams=[{'error': repr(sn.err), 'done': sn.done, 'n': len(sn.out), 'digest': repr(d)[:100]} for sn, d in zip(snaps, digests)])
+        return None
+    return digests[0]
+
+
 def dump_pushed(make, rows, path, out, what, twin=None):
     """A dump fed by a pushed (hot, not trampolined) source, whose consumer reads the file back from inside the
     completion callback - the streaming application that post-processes the file when the dump completes.
@@ -809,6 +932,9 @@ def play_prelude(obs, src, items, prelude):
 
 def _play_prelude(obs, src, items, prelude, rxops):
     n_done = 0
+    if prelude and prelude[0][0] == 'feed':
+        # (the history is fed its own - longer - stream, see common.with_prelude)
+        items, prelude = prelude[0][1], prelude[1:]
     for step_no, (kind, k) in enumerate(prelude):
         if kind == 'overlap' and step_no != len(prelude) - 1:
             kind = 'dispose'        # (two live subscriptions must not both receive items: only the last step may overlap)
